@@ -387,6 +387,11 @@ impl<S: Sv> Sources<S> {
     }
 }
 
+thread_local! {
+    /// Row at which the user closure reports a wrong index (None = never).
+    static FAIL_AT: std::cell::Cell<Option<usize>> = const { std::cell::Cell::new(None) };
+}
+
 /// Calls method `m` on `out`. `log` receives every index handed to a user closure; `tag` is
 /// mixed into closure results so that results computed under another version are recognisable.
 pub fn call<V: Sv, S: Sv>(
@@ -399,14 +404,17 @@ pub fn call<V: Sv, S: Sv>(
     tag: usize,
 ) -> vecdb::Result<()> {
     let note = |i: usize| log.borrow_mut().push(i);
+    // a closure that reports another index than the one it was asked for makes the computation
+    // fail at that row (FAIL_AT is set only for the "computation fails part-way" step)
+    let at = |i: usize| if FAIL_AT.with(|c| c.get()) == Some(i) { i + 1 } else { i };
     match m {
-        M::To => out.compute_to(max_from, s.a.len(), s.a.version(), |i| { note(i); (i, i * 16 + tag) }, exit),
-        M::Range => out.compute_range(max_from, &s.a, |i| { note(i); (i, i * 32 + tag) }, exit),
+        M::To => out.compute_to(max_from, s.a.len(), s.a.version(), |i| { note(i); (at(i), i * 16 + tag) }, exit),
+        M::Range => out.compute_range(max_from, &s.a, |i| { note(i); (at(i), i * 32 + tag) }, exit),
         M::FromIndex => out.compute_from_index(max_from, &s.a, exit),
-        M::Transform => out.compute_transform(max_from, &s.a, |(i, x, _)| { note(i); (i, x * 16 + tag) }, exit),
-        M::Transform2 => out.compute_transform2(max_from, &s.a, &s.b, |(i, x, y, _)| { note(i); (i, (x * 64 + y) * 16 + tag) }, exit),
-        M::Transform3 => out.compute_transform3(max_from, &s.a, &s.b, &s.c, |(i, x, y, z, _)| { note(i); (i, ((x * 64 + y) * 1024 + z) * 16 + tag) }, exit),
-        M::Transform4 => out.compute_transform4(max_from, &s.a, &s.b, &s.c, &s.d, |(i, x, y, z, w, _)| { note(i); (i, (((x * 64 + y) * 1024 + z) * 8 + w) * 16 + tag) }, exit),
+        M::Transform => out.compute_transform(max_from, &s.a, |(i, x, _)| { note(i); (at(i), x * 16 + tag) }, exit),
+        M::Transform2 => out.compute_transform2(max_from, &s.a, &s.b, |(i, x, y, _)| { note(i); (at(i), (x * 64 + y) * 16 + tag) }, exit),
+        M::Transform3 => out.compute_transform3(max_from, &s.a, &s.b, &s.c, |(i, x, y, z, _)| { note(i); (at(i), ((x * 64 + y) * 1024 + z) * 16 + tag) }, exit),
+        M::Transform4 => out.compute_transform4(max_from, &s.a, &s.b, &s.c, &s.d, |(i, x, y, z, w, _)| { note(i); (at(i), (((x * 64 + y) * 1024 + z) * 8 + w) * 16 + tag) }, exit),
         M::IndirectSeq => out.compute_indirect_sequential(max_from, &s.keys, &s.kin, exit),
         M::FirstPerIndex => out.compute_first_per_index(max_from, &s.fpi, exit),
         M::Add => out.compute_add(max_from, &s.a, &s.c, exit),
@@ -693,6 +701,55 @@ pub fn run_eager_history<V: Sv, S: Sv>(hseed: u64, m_index: usize, cfg: ECfg) ->
                 _ => limit,
             }
         };
+        // ---- a computation that fails part-way ------------------------------------------------
+        // (closure families, version histories): the closure reports a wrong index at one row, the
+        // call returns an error, whatever it produced so far stays in the vector unflushed and
+        // the version it ran under is the one the vector remembers. Nothing is judged here; the
+        // following steps (in particular a version change right after) are.
+        if cfg.versions
+            && matches!(m, M::To | M::Range | M::Transform | M::Transform2 | M::Transform3 | M::Transform4)
+            && let Ok(w) = &want
+            && rng.chance(1, 4)
+        {
+            let start = if version_changed { 0 } else { max_from.min(before.len()) };
+            if w.len() >= start + 2 {
+                let k = start + 1 + rng.below(w.len() - start - 1);
+                let log = RefCell::new(vec![]);
+                FAIL_AT.with(|c| c.set(Some(k)));
+                let res = obs::with_sink(sink.clone(), || catch(|| call(m, &mut out, max_from, srcs.as_ref().unwrap(), &exit, &log, tag)));
+                FAIL_AT.with(|c| c.set(None));
+                o.stats.bump("step:computation_failed_part_way");
+                o.steps.push(json!({"step": kind, "rows": data.rows(), "max_from": max_from, "aborted_at_row": k}));
+                match res {
+                    Err(p) => {
+                        fail(&mut o, format!("failing-closure-panicked|{}", m.name()), format!("{} (step {step}): a closure reporting a wrong index at row {k} made the call panic: {p}", m.describe()));
+                        return o;
+                    }
+                    Ok(Ok(())) => {
+                        // the call did not look at the reported index: nothing is known about the
+                        // vector now; recompute from 0 next time
+                        o.stats.bump("failing_closure_not_noticed");
+                        expected = None;
+                        first_changed_row = 0;
+                        first_changed_pos = 0;
+                    }
+                    Ok(Err(_)) => {
+                        let have: Vec<usize> = ReadableVec::collect(&out);
+                        let p = have.iter().zip(w.iter()).take_while(|(x, y)| x == y).count();
+                        expected = Some(w[..p].to_vec());
+                        first_changed_row = data.a.len().min(data.b.len());
+                        first_changed_pos = data.fpi.len();
+                        if AnyStoredVec::stored_len(&out) == 0 && !have.is_empty() {
+                            o.stats.bump("state:unflushed_rows_only_after_failed_computation");
+                        }
+                        // the version of this attempt is recorded now
+                        version_changed = false;
+                    }
+                }
+                o.hashes.push(2);
+                continue;
+            }
+        }
         // ---- the incremental call --------------------------------------------------------------
         let log = RefCell::new(vec![]);
         batches.set(0);
